@@ -70,6 +70,7 @@ K_WAIT = "blocked-producer-is-waited-for-before-its-consumer-is-torn-down"
 K_ABORT = "end-left-early-keeps-the-last-handlers"
 K_VSUSP = "captured-command-leaves-the-suspend-character-disabled"
 K_STDERR_CLOSED = "o2e-capture-start-failure-closes-session-stderr"
+K_EBADF = "alias-stage-finds-its-pipe-end-closed-and-never-publishes-a-return-code"
 K_STD = "overlapping-alias-threads-leave-sys-stdout-on-the-dispatcher"
 
 SIGS = ["SIGINT", "SIGTSTP", "SIGQUIT", "SIGWINCH"]
@@ -568,9 +569,15 @@ def _run_case_here(item):
     thread_excs = []
 
     def on_thread_exc(args):
-        thread_excs.append(f"{args.exc_type.__name__}: {args.exc_value} in {type(args.thread).__name__}")
+        import traceback
+
         try:
-            hf.write(f"THREAD-EXC {args.exc_type.__name__}: {args.exc_value} in {type(args.thread).__name__}\n")
+            where = " <- ".join(f"{os.path.basename(fr.filename)}:{fr.lineno} {fr.name}" for fr in reversed(traceback.extract_tb(args.exc_traceback)[-3:]))
+        except Exception:  # noqa: BLE001
+            where = "?"
+        thread_excs.append(f"{args.exc_type.__name__}: {args.exc_value} in {type(args.thread).__name__} at {where}")
+        try:
+            hf.write(f"THREAD-EXC {args.exc_type.__name__}: {args.exc_value} in {type(args.thread).__name__} at {where}\n")
             hf.flush()
         except Exception:  # noqa: BLE001
             pass
@@ -580,6 +587,10 @@ def _run_case_here(item):
     def on_alarm(*_):
         try:
             hf.write("WATCHDOG real std objects closed (stdin, stdout, stderr): " + repr([bool(o.closed) for o in real]) + " threads: " + repr(_threads()) + "\n")
+            lc = XSH.lastcmd
+            if lc is not None:
+                # a proc thread that is dead but never published a return code keeps iterraw's loop spinning for ever
+                hf.write("WATCHDOG procs (class, returncode, alive): " + repr([(type(p_).__name__, getattr(p_, "returncode", "?"), bool(getattr(p_, "is_alive", lambda: None)())) for p_ in lc.procs]) + "\n")
             hf.flush()
         except Exception:  # noqa: BLE001
             pass
@@ -955,7 +966,7 @@ def judge(ctx, stream, case, obs, variant):
     if is_hang(obs):
         ctx.count("hang")
         mech = hang_mechanism(obs)
-        key = K_HANG if hang_is_known(case) and all(mech.values()) else None
+        key = hang_key(obs, case)
         ctx.extra.setdefault("hangs", []).append({"source": case["src"], "mechanism": mech, "classified": key, "dump_tail": obs.get("stacks", "")[-1800:]})
         ctx.spec_failure(info, {"hang": True, "mechanism": mech, "stacks": obs.get("stacks", "")[-3000:]}, "the command did not return (the session is wedged)", key)
         return
@@ -1152,8 +1163,7 @@ def is_hang(obs):
 
 
 def hang_mechanism(obs):
-    """what the stack dump of a wedged command shows: the main thread inside CommandPipeline while a callable alias's proxy
-    thread is still inside the alias (blocked on its pipe)"""
+    """what the stack / diagnostics dump of a wedged command shows"""
     st = obs.get("stacks", "")
     return {
         "main_thread_inside_CommandPipeline": "xonsh/procs/pipelines.py" in st,
@@ -1162,6 +1172,21 @@ def hang_mechanism(obs):
         # alias thread dies in safe_flush (ValueError) before it publishes its return code and closes its pipe's write end
         "real_std_object_closed_or_alias_thread_died_of_it": ("I/O operation on closed file" in st) or ("closed (stdin, stdout, stderr): [" in st and "True" in st.split("closed (stdin, stdout, stderr): [")[1].split("]")[0]),
     }
+
+
+def hang_key(obs, case):
+    """the known finding a wedge belongs to, by what the dump shows - never by the shape of the command"""
+    st = obs.get("stacks", "")
+    if not any(s["kind"] == "thr" for s in case["stages"]):
+        return None
+    if all(hang_mechanism(obs).values()):
+        return K_HANG
+    # a callable-alias stage found its pipe end already closed (EBADF escaped ProcProxyThread.run), its thread is dead, it never
+    # published a return code, and the main thread is in iterraw's `while ... _any_proc_running()` loop
+    if ("THREAD-EXC OSError: [Errno 9] Bad file descriptor in ProcProxyThread" in st and "('ProcProxyThread', None, False)" in st
+            and " in iterraw" in st):
+        return K_EBADF
+    return None
 
 
 def to_item(case, reps=1):
@@ -1421,7 +1446,7 @@ def stream_repetition(ctx, n, reps, variant, name="repetition"):
             ctx.count("hang")
             ctx.extra.setdefault("hangs", []).append({"source": c["src"], "reps": reps, "mechanism": mech, "dump_tail": obs.get("stacks", "")[-1800:]})
             ctx.spec_failure(info, {"hang": True, "mechanism": mech, "stacks": obs.get("stacks", "")[-3000:]}, "repeating the command wedged the session",
-                             K_HANG if hang_is_known(c) and all(mech.values()) else None)
+                             hang_key(obs, c))
             continue
         if isinstance(obs, dict) and "__exc__" in obs:
             raise common.InfraError(f"C09 worker failed on {c['src']!r}: {obs['__exc__']}")
@@ -1479,7 +1504,7 @@ def replay_known(ctx):
                     break
                 # the intermittent wedge (K_HANG) struck the witness itself: note it and run the witness again
                 ctx.count("witness-rerun-after/" + K_HANG)
-                if is_hang(obs) and not all(hang_mechanism(obs).values()):
+                if is_hang(obs) and hang_key(obs, case) is None:
                     break
             if is_hang(obs) or (isinstance(obs, dict) and "__exc__" in obs):
                 raise common.InfraError(f"C09 known-finding witness did not run: {str(obs)[:500]}")
